@@ -113,6 +113,46 @@ type Event struct {
 	Op   string // Encrypt, Decrypt, Reset, Write, Sum
 	Len  int
 	Hash [32]byte // sha256 of the argument (Write/Encrypt/Decrypt) or of the result (Sum)
+	Data []byte   // copy of the argument of Write (so that chunked writes can be concatenated)
+}
+
+// MACInput returns, for the LAST Sum event on obj, the concatenation of everything written to obj since the
+// Reset preceding it, and whether that computation did start with a Reset (or with the object's first use).
+func MACInput(ev []Event, obj string) (data []byte, startedClean bool, found bool) {
+	last := -1
+	for i, e := range ev {
+		if e.Obj == obj && e.Op == "Sum" {
+			last = i
+		}
+	}
+	if last < 0 {
+		return nil, false, false
+	}
+	// walk back to the start of this computation
+	start := -1
+	for i := last - 1; i >= 0; i-- {
+		if ev[i].Obj != obj {
+			continue
+		}
+		if ev[i].Op == "Reset" {
+			start = i
+			startedClean = true
+			break
+		}
+		if ev[i].Op == "Sum" { // previous computation ended here without a Reset in between
+			start = i
+			break
+		}
+	}
+	if start < 0 {
+		startedClean = false // writes before any Reset: only clean if the object was fresh; callers decide
+	}
+	for i := start + 1; i < last; i++ {
+		if ev[i].Obj == obj && ev[i].Op == "Write" {
+			data = append(data, ev[i].Data...)
+		}
+	}
+	return data, startedClean, true
 }
 
 func (e Event) String() string { return fmt.Sprintf("%s.%s(%d)", e.Obj, e.Op, e.Len) }
@@ -166,7 +206,7 @@ type SpyHash struct {
 }
 
 func (s *SpyHash) Write(p []byte) (int, error) {
-	s.T.add(Event{Obj: s.Name, Op: "Write", Len: len(p), Hash: sha256.Sum256(p)})
+	s.T.add(Event{Obj: s.Name, Op: "Write", Len: len(p), Hash: sha256.Sum256(p), Data: append([]byte{}, p...)})
 	return s.Inner.Write(p)
 }
 func (s *SpyHash) Sum(b []byte) []byte {
